@@ -357,6 +357,38 @@ func vc04Raw(addr, method string, target []byte, authHdr string, extra []string)
 	return code
 }
 
+// one raw request whose header block is exactly `block` (one element per line)
+func vc04RawBlock(addr, method string, target []byte, block []string) int {
+	conn, err := net.DialTimeout("tcp", addr, 2*time.Second)
+	if err != nil {
+		return -1
+	}
+	defer conn.Close()
+	_ = conn.SetDeadline(time.Now().Add(5 * time.Second))
+	var sb strings.Builder
+	sb.WriteString(method + " ")
+	sb.Write(target)
+	sb.WriteString(" HTTP/1.1\r\n")
+	for _, h := range block {
+		sb.WriteString(h + "\r\n")
+	}
+	sb.WriteString("\r\n")
+	if _, err := io.WriteString(conn, sb.String()); err != nil {
+		return -2
+	}
+	line, err := bufio.NewReader(conn).ReadString('\n')
+	if err != nil && line == "" {
+		return 0
+	}
+	parts := strings.SplitN(strings.TrimSpace(line), " ", 3)
+	if len(parts) < 2 {
+		return 0
+	}
+	code, _ := strconv.Atoi(parts[1])
+	_, _ = io.Copy(io.Discard, conn)
+	return code
+}
+
 // one raw request whose response HEADERS are read: status, the canary that answered and the user it saw. `pause` is called
 // after the request head and the first body bytes were written and before the rest of the body is sent.
 func vc04RawSlow(addr, method, path, authHdr string, body string, pause func()) string {
@@ -681,7 +713,7 @@ type vc04Op struct {
 	Hdr    string          `json:"hdr,omitempty"`
 	Tok    *vc04Tok        `json:"tok,omitempty"`
 	HBK    string          `json:"hbk,omitempty"`   // header-block leg: name of the shape (the lines are rebuilt from it on replay)
-	HB     []string        `json:"hb,omitempty"`    // header-block leg: hex of the header lines written instead of ONE "Authorization: <hdr>" line
+	HB     []string        `json:"hb,omitempty"`    // header-block leg: hex of ALL header lines of the request, as written
 	Cands  []vc04Cand      `json:"cands,omitempty"` // header-block leg: what the libraries say about each header value that occurs in the block
 	A      string          `json:"a,omitempty"`
 	B      string          `json:"b,omitempty"`
@@ -701,7 +733,9 @@ type vc04Cand struct {
 var vc04HeaderShapes = []string{"hb-lowercase-name", "hb-uppercase-name", "hb-mixed-name-no-blank", "hb-ows-around", "hb-first-valid-then-garbage",
 	"hb-first-garbage-then-valid", "hb-first-empty-then-valid", "hb-expired-then-garbage", "hb-x-authorization", "hb-proxy-authorization",
 	"hb-authorization-suffix", "hb-garbage-then-proxy-valid", "hb-two-values-comma", "hb-valid-after-other-headers", "hb-expired-then-valid-then-garbage",
-	"hb-empty-value", "hb-blank-value", "hb-empty-then-garbage", "hb-garbage-twice", "hb-scheme-only-then-expired"}
+	"hb-empty-value", "hb-blank-value", "hb-empty-then-garbage", "hb-garbage-twice", "hb-scheme-only-then-expired",
+	"hb-space-before-colon", "hb-obs-fold", "hb-no-colon-line", "hb-empty-name", "hb-name-with-slash", "hb-fold-first-line", "hb-tab-before-colon",
+	"hb-bad-line-after-valid", "hb-name-nonascii", "hb-value-ctl", "hb-name-underscore", "hb-block-starts-folded"}
 
 func vc04HeaderBlock(shape string, credByKind map[string]vc04Cred) (lines []string, cands []vc04Cand, credKind string) {
 	T, G, X := credByKind["valid0"].hdr, credByKind["garbage"].hdr, credByKind["expired"].hdr
@@ -740,6 +774,28 @@ func vc04HeaderBlock(shape string, credByKind map[string]vc04Cred) (lines []stri
 		lines = []string{"Cookie: session=admin", "X-Forwarded-For: 127.0.0.1", "Authorization: " + T, "Accept: */*"}
 	case "hb-expired-then-valid-then-garbage":
 		lines = []string{"Authorization: " + X, "Authorization: " + T, "Authorization: " + G}
+	case "hb-space-before-colon":
+		lines = []string{"Authorization : " + T}
+	case "hb-tab-before-colon":
+		lines = []string{"Authorization\t: " + T}
+	case "hb-obs-fold":
+		lines = []string{"Authorization: Bearer", " " + strings.TrimPrefix(T, "Bearer ")}
+	case "hb-fold-first-line":
+		lines = []string{"X-A: b", "\tcontinued", "Authorization: " + T}
+	case "hb-no-colon-line":
+		lines = []string{"Authorization " + T}
+	case "hb-empty-name":
+		lines = []string{": x", "Authorization: " + T}
+	case "hb-name-with-slash":
+		lines = []string{"Authorization/x: " + T, "Authorization: " + T}
+	case "hb-bad-line-after-valid":
+		lines = []string{"Authorization: " + T, "Bad Name: x"}
+	case "hb-name-nonascii":
+		lines = []string{"Authorizati\u00f6n: " + T, "Authorization: " + T}
+	case "hb-value-ctl":
+		lines = []string{"Authorization: " + T + "\x01"}
+	case "hb-name-underscore":
+		lines = []string{"Authorization_: " + T, "authorization: " + T}
 	case "hb-empty-value":
 		lines, credKind = []string{"Authorization:"}, "none"
 	case "hb-blank-value":
@@ -750,9 +806,17 @@ func vc04HeaderBlock(shape string, credByKind map[string]vc04Cred) (lines []stri
 		lines, credKind = []string{"Authorization: " + G, "AUTHORIZATION: " + G}, "garbage"
 	case "hb-scheme-only-then-expired":
 		lines, credKind = []string{"Authorization: Bearer", "Authorization: " + X}, "expired"
+	case "hb-block-starts-folded":
+		lines = []string{"Authorization: " + T}
 	default:
 		credKind = "none"
 	}
+	// the whole block as written on the wire
+	full := append([]string{"Host: verif.test", "Connection: close"}, lines...)
+	if shape == "hb-block-starts-folded" {
+		full = append([]string{" folded"}, full...)
+	}
+	lines = append(full, "Content-Length: 0")
 	return
 }
 
@@ -922,12 +986,17 @@ func TestVerifC04(t *testing.T) {
 			vc04Seen.mu.Lock()
 			vc04Seen.ran, vc04Seen.user = -1, "-"
 			vc04Seen.mu.Unlock()
-			extra := op.HX
-			for _, h := range op.HB { // header-block leg: these lines, byte for byte, and no other Authorization line
-				b, _ := hex.DecodeString(h)
-				extra = append(append([]string{}, extra...), string(b))
+			var code int
+			if len(op.HB) > 0 { // header-block leg: the WHOLE header block, byte for byte
+				var block []string
+				for _, h := range op.HB {
+					b, _ := hex.DecodeString(h)
+					block = append(block, string(b))
+				}
+				code = vc04RawBlock(addr, op.M, target, block)
+			} else {
+				code = vc04Raw(addr, op.M, target, op.Hdr, op.HX)
 			}
-			code := vc04Raw(addr, op.M, target, op.Hdr, extra)
 			vc04Seen.mu.Lock()
 			defer vc04Seen.mu.Unlock()
 			ran := "-"
